@@ -6,7 +6,7 @@ import ast
 from ..cfg import ENTRY, guards_of
 from ..dataflow import cone, get_defuse, stores
 from ..engines import cache, fields, schema
-from ..frontend import src, walk_no_nested
+from ..frontend import const_value, src, walk_no_nested
 
 EXPLANATION = (
     "Decides the writer/reader agreement of the HDF5 schema of GMMMachine (11 keys) and GMMStats (7 keys) for every "
@@ -141,6 +141,8 @@ def check_class(P, R, clsname):
     for w in W:
         for a in sorted(w.attrs & noneable):
             guarded = any(src(g).replace(" ", "") == f"{save.self_name}.{a}isnotNone" and pol for g, pol in w.guards)
+            # ... or the written value itself is tested (`value = getattr(self, key)` / `if value is not None: hdf5[key] = value`)
+            guarded = guarded or any(pol and isinstance(g, ast.Compare) and len(g.ops) == 1 and isinstance(g.ops[0], ast.IsNot) and const_value(g.comparators[0]) is None and isinstance(g.comparators[0], ast.Constant) and src(g.left) == src(w.value) for g, pol in w.guards)
             encoded = any(isinstance(n, ast.IfExp) and "None" in src(n.test) for n in ast.walk(w.value))
             R.check(
                 guarded or encoded, "SCHEMA.S8", save.key, f"hdf5[{w.key!r}] = {src(w.value)}",
